@@ -27,7 +27,8 @@ def relayout(rng, text):
             if c < 0.55: out.append(" ")
             elif c < 0.75: out.append("\n" + " " * rng.randint(0, 6))
             elif c < 0.85: out.append("  ; çomment (λ \" \n  ")
-            elif c < 0.93: out.append("\t")
+            elif c < 0.90: out.append("\t")
+            elif c < 0.95: out.append(rng.choice(["\r\n", "\r\n   ", " \r", "\r\n\r\n"]))
             else: out.append("\n\n")
         out.append(t)
     pre = rng.choice(["", "", "\"multi\nline\" ", ";; héllo wörld\n", "\"é\"\n   ", "\n\n  "])
